@@ -246,6 +246,10 @@ pub struct Cmd<'a> {
   pub timeout: Duration,
   /// pass the arguments exactly as given (no alternative spelling)
   pub literal: bool,
+  /// standard output goes (appended) to this file instead of a pipe, as with a shell's `>>`
+  pub stdout_to: Option<PathBuf>,
+  /// the same for standard error (`2>> file`)
+  pub stderr_to: Option<PathBuf>,
 }
 
 impl<'a> Cmd<'a> {
@@ -260,7 +264,17 @@ impl<'a> Cmd<'a> {
       env_remove: vec![],
       timeout: Duration::from_secs(60),
       literal: false,
+      stdout_to: None,
+      stderr_to: None,
     }
+  }
+  pub fn stderr_to(mut self, p: &Path) -> Self {
+    self.stderr_to = Some(p.to_path_buf());
+    self
+  }
+  pub fn stdout_to(mut self, p: &Path) -> Self {
+    self.stdout_to = Some(p.to_path_buf());
+    self
   }
   pub fn literal(mut self) -> Self {
     self.literal = true;
@@ -366,8 +380,24 @@ impl<'a> Cmd<'a> {
       c.env(k, v);
     }
     c.stdin(if self.stdin.is_some() { Stdio::piped() } else { Stdio::null() });
-    c.stdout(Stdio::piped());
-    c.stderr(Stdio::piped());
+    match &self.stdout_to {
+      Some(p) => {
+        let f = std::fs::OpenOptions::new().create(true).append(true).open(p).unwrap_or_else(|e| panic!("cannot open {}: {e}", p.display()));
+        c.stdout(Stdio::from(f));
+      }
+      None => {
+        c.stdout(Stdio::piped());
+      }
+    }
+    match &self.stderr_to {
+      Some(p) => {
+        let f = std::fs::OpenOptions::new().create(true).append(true).open(p).unwrap_or_else(|e| panic!("cannot open {}: {e}", p.display()));
+        c.stderr(Stdio::from(f));
+      }
+      None => {
+        c.stderr(Stdio::piped());
+      }
+    }
     let mut child = c.spawn().unwrap_or_else(|e| panic!("cannot run {}: {e}", self.bin));
     let stdin_data = self.stdin.clone();
     let mut child_stdin = child.stdin.take();
@@ -376,16 +406,20 @@ impl<'a> Cmd<'a> {
         let _ = si.write_all(&data);
       }
     });
-    let mut so = child.stdout.take().unwrap();
-    let mut se = child.stderr.take().unwrap();
+    let so = child.stdout.take();
+    let se = child.stderr.take();
     let t_out = std::thread::spawn(move || {
       let mut v = Vec::new();
-      let _ = so.read_to_end(&mut v);
+      if let Some(mut so) = so {
+        let _ = so.read_to_end(&mut v);
+      }
       v
     });
     let t_err = std::thread::spawn(move || {
       let mut v = Vec::new();
-      let _ = se.read_to_end(&mut v);
+      if let Some(mut se) = se {
+        let _ = se.read_to_end(&mut v);
+      }
       v
     });
     let start = Instant::now();
